@@ -5,7 +5,7 @@ import z3
 
 from pyvc import ty as T
 from pyvc import heap as H
-from pyvc.engine import fstring_fn, str_lt, str_order_axioms
+from pyvc.engine import Fact, fstring_fn, str_lt, str_order_axioms
 from pyvc.registry import ANY, Contract, lemma, scan, assumption, module_ast, CLASSES
 from contracts.c_utils import us, ETy, t_time, t_unit, factor, mk
 from contracts import shapes as S
@@ -159,6 +159,22 @@ def minimal(h, hpre, lst, r):
     return z3.ForAll([e], z3.Implies(mem(hpre, lst, e), z3.Not(ev_lt(h, e, r))), patterns=[mem(hpre, lst, e)])
 
 
+def earliest(h, lst, r):
+    """no member of lst is timed before r"""
+    e = z3.Int(H.fresh_name("er_e"))
+    return z3.ForAll([e], z3.Implies(mem(h, lst, e), us(ev_time(h, e)) >= us(ev_time(h, r))), patterns=[mem(h, lst, e)])
+
+
+def root_earliest_fact(h, lst):
+    """instance of lemma heap.root_earliest (proved by induction on the index, see heap_root_earliest below)"""
+    i = z3.Int(H.fresh_name("re_i"))
+    el = lambda k: h.l_elem(EL, lst, k)
+    return Fact(
+        "lemma.heap.root_earliest",
+        z3.Implies(is_heap(h, lst), z3.ForAll([i], z3.Implies(z3.And(0 <= i, i < h.c_len(EL, lst)), us(ev_time(h, el(i))) >= us(ev_time(h, el(0)))), patterns=[el(i)])),
+    )
+
+
 def lst_mod(c, lst):
     return {c.pre.carr(EL, "len")[0]: [lst], c.pre.carr(EL, "elem")[0]: [lst]}
 
@@ -280,8 +296,12 @@ Contract(
     ensures=lambda c: {
         "peek.none_iff_empty": (c.res == 0) == (c.pre.c_len(EL, q_list(c.pre, c.arg("self"))) == 0),
         "peek.is_root": z3.Implies(c.res != 0, c.res == c.pre.l_elem(EL, q_list(c.pre, c.arg("self")), 0)),
+        # C16/C03: the event the main loop looks at is an earliest pending one
+        "peek.earliest": z3.Implies(c.res != 0, earliest(c.pre, q_list(c.pre, c.arg("self")), c.res)),
+        "peek.is_member": z3.Implies(c.res != 0, mem(c.pre, q_list(c.pre, c.arg("self")), c.res)),
     },
-    props=P16,
+    exit_facts=lambda c: [root_earliest_fact(c.pre, q_list(c.pre, c.arg("self"))), Fact("list.mem_def", c.pre.l_mem_def(EL, q_list(c.pre, c.arg("self"))))],
+    props=P16 + ("C03",),
 )
 
 Contract(
@@ -351,6 +371,21 @@ def event_strict_weak_order():
                 prio(et("SCHEDULER_FINISHED")) < prio(et("SIMULATOR_END")),
             ),
         ),
+    ]
+
+
+@lemma("C16")
+def heap_root_earliest():
+    """is_heap(lst) => every element is timed at or after the root: induction on the index k (parent (k-1)//2 < k)."""
+    h = H.Heap("HR")
+    lst, k = z3.Ints("hr_lst hr_k")
+    j = z3.Int("hr_j")
+    el = lambda i: h.l_elem(EL, lst, i)
+    tm = lambda i: us(ev_time(h, el(i)))
+    ih = z3.ForAll([j], z3.Implies(z3.And(0 <= j, j < k), tm(j) >= tm(0)), patterns=[el(j)])
+    return [
+        ("heap.root_earliest.base", [], tm(0) >= tm(0)),
+        ("heap.root_earliest.step", [is_heap(h, lst), 0 < k, k < h.c_len(EL, lst), ih], tm(k) >= tm(0)),
     ]
 
 
